@@ -67,6 +67,8 @@ class Check:
         import shutil
         shutil.rmtree(os.path.join(OUT, "replays", pid), ignore_errors=True)
         self.nontrivial = set()
+        from .xcheck import XCheck
+        self.xc = XCheck()
 
     # -- bookkeeping
     def ok(self, name, n=1):
@@ -141,6 +143,12 @@ class Check:
             cov.setdefault("states", max(self.extra.pop("states", 1), 1))
             cov.setdefault("transitions", max(self.extra.pop("transitions", 1), 1))
             cov.setdefault("traces_validated_against_impl", self.replays_done)
+        if self.xc.done or self.xc.disagree:
+            cov["solver_crosscheck"] = self.xc.summary()
+            for d in self.xc.disagree:
+                self.inconclusive.append((d["obligation"], f"solvers disagree: z3 {d['z3']}, cvc5 {d['cvc5']}"))
+                self.harness_errors.append(f"z3 and cvc5 disagree on {d['obligation']}: z3 {d['z3']}, cvc5 {d['cvc5']}")
+            cov["inconclusive"] = len(self.inconclusive)
         cov.update(_jsonable(self.extra))
         if coverage_extra:
             cov.update(_jsonable(coverage_extra))
